@@ -21,6 +21,10 @@ def plan(tier):
     p.append((S.T2(O=("PASS", "FAIL", "WARN", "SKIP", "ERROR")).variant("/O=5"), 1 if q else 2, 2))
     p.append((S.replay_of(S.T2(), "all passed, pools empty"), 1, 1))
     p.append((S.replay_of(S.T2(), "all passed, shared=chain", shared=S.VM1_CHAIN), 1, 1))
+    # several replayed jobs: the setup passed in the first one, the leaves ran in the second one
+    p.append((S.replay_of(S.T2(), "all passed, shared=chain", jobs=2, shared=S.VM1_CHAIN), 1, 1))
+    p.append((S.replay_of(S.T2(), "leaves failed, own pools keep the setup", jobs=2, status_of=lambda n: "FAIL" if ".tutorial" in n else "PASS",
+                          own={"net1": S.VM1_CHAIN, "net2": S.VM1_CHAIN}), 1, 1))
     # workers bound to runtime slots (container / serial / remote): the slot's connection parameters must reach every test of that worker
     for nets, slots in (("net1 net2", "5 "), ("net1 net2", "5 7"), ("net1 net2 net3", "1 2 3"), ("net1 net2", "gw1.lan/1 gw1.lan/2"),
                         ("cluster1.net6 net2", "5 7"), ("cluster1.net6 cluster1.net7", "c1.lan/1 c1.lan/2"), ("net1 net2 net3", "5 7")):
